@@ -23,7 +23,34 @@ def t_rules():
     assert 'warn!' not in t.s and '.verif_await()?' in t.s and 'i32::MAX' in t.s and 'std::i32' not in t.s
     assert 'panic!("verif")' in t.s and 'assert((a) != (b))' in t.s, t.s
 
-t_mask(); t_rules()
+def t_r11():
+    t = lift.LText('opt(tag(b":dn"))(i); tag(b"")(i); let s = "b\\"x";', 1)
+    assert lift.r11_bstr(t) == 2 and '&[58u8, 100u8, 110u8]' in t.s and '&[0u8; 0]' in t.s and '"b\\"x"' in t.s, t.s
+
+def t_attribution():
+    """every property named in a clause label must run the unit that holds the clause (labels of the shared include
+    files are repeated in every unit and are exempt)"""
+    import json, re
+    root = os.path.dirname(os.path.dirname(os.path.abspath(__file__)))
+    reg = json.load(open(os.path.join(root, 'contracts', 'registry.json')))
+    bad = []
+    for u, uc in reg['units'].items():
+        if uc['engine'] == 'verus':
+            text = open(os.path.join(root, 'contracts', u, 'unit.rs')).read()
+            for inc in re.findall(r'^//@include (\S+)', text, re.M):
+                if '/shared/' not in inc:
+                    text += open(os.path.join(root, inc)).read()
+            labs = set(re.findall(r'//#\s*([A-Za-z0-9_.:+\-]+)', text))
+        else:
+            labs = set(h['label'] for h in json.load(open(os.path.join(root, 'contracts', u, 'harnesses.json')))['harnesses'])
+        for lab in labs:
+            m = re.match(r'((?:C\d\d\+?)+)\.', lab)
+            for p in (m.group(1).split('+') if m else []):
+                if p in reg['properties'] and u not in reg['properties'][p]['units']:
+                    bad.append((p, u, lab))
+    assert not bad, 'clause labels name properties whose check does not run the unit: %s' % bad[:5]
+
+t_mask(); t_rules(); t_r11(); t_attribution()
 for cmd in (['verus', '--version'], ['cargo', 'kani', '--version']):
     p = subprocess.run(cmd, stdout=subprocess.PIPE, stderr=subprocess.STDOUT, text=True, env=dict(os.environ, CARGO_NET_OFFLINE='true'))
     print(' '.join(cmd), '->', p.stdout.strip().splitlines()[0] if p.stdout.strip() else p.returncode)
